@@ -220,6 +220,12 @@ func (c *Conn) Write(p []byte) (int, error) {
 		}
 		s.log(Rec{Kind: "write", Conn: c.k, N: w, V: int64(len(p)), Err: werr.Error(), S: fmt.Sprintf("prefix=%d", pre), B: true})
 		c.logAttempt(p, werr.Error())
+		if f.Code == 2 {
+			// half-dead link: every write fails from now on, the read side stays
+			// silent; only the client can end this connection
+			s.probe("half-dead-link")
+			return pre, werr
+		}
 		// the link is dead: the peer will see the connection go away shortly
 		s.after(us(s.sc.Cfg.LatC2BUs), "writeErr-cut", func() { c.cut(true, "writeErr") })
 		return pre, werr
